@@ -147,19 +147,20 @@ func c03SameSpelling(src []byte, p c03Piece) bool {
 // ---------------------------------------------------------------------------------------- generator
 
 type c03ProgGen struct {
-	r       *Rng
-	opts    int
-	eg      *c03ExprGen
-	nameN   int
-	inFunc  bool
-	inGen   bool
-	inAsync bool
-	inLoop  bool
-	inSw    bool
-	inMeth  bool
-	inStat  bool // inside a class static block: no return, no await
-	forHead bool // inside the head of a for statement: keep `in` out of binding patterns (KNOWN_FINDINGS c03-accept:in-inside-for-binding-pattern)
-	labels  []string
+	r        *Rng
+	opts     int
+	eg       *c03ExprGen
+	nameN    int
+	inFunc   bool
+	inGen    bool
+	inAsync  bool
+	inLoop   bool
+	inSw     bool
+	inMeth   bool
+	inStat   bool // inside a class static block: no return, no await
+	modItems bool // the statement list being generated is the top level of a module
+	forHead  bool // inside the head of a for statement: keep `in` out of binding patterns (KNOWN_FINDINGS c03-accept:in-inside-for-binding-pattern)
+	labels   []string
 }
 
 func c03NewProgGen(r *Rng, opts int) *c03ProgGen {
@@ -945,8 +946,14 @@ type c03Stmt struct {
 // the end of input follows the list, so the last statement needs no terminator of its own.
 func (g *c03ProgGen) stmtList(depth, n int, braceFollows bool) c03Piece {
 	var sts []c03Stmt
+	top := g.modItems
+	g.modItems = false
 	for i := 0; i < n; i++ {
-		sts = append(sts, g.stmt(depth))
+		if top && g.r.Chance(1, 2) {
+			sts = append(sts, g.moduleItem(depth))
+		} else {
+			sts = append(sts, g.stmt(depth))
+		}
 	}
 	var out c03Piece
 	var strs []string
@@ -1269,9 +1276,116 @@ func (g *c03ProgGen) forStmt(depth int) c03Stmt {
 	}
 }
 
+// moduleItem: import / export declarations (module code only)
+func (g *c03ProgGen) moduleItem(depth int) c03Stmt {
+	r := g.r
+	mod := []string{"\"m\"", "'./x.js'"}[r.Intn(2)]
+	specs := func(imp bool) (c03Piece, string) {
+		n := r.Intn(3)
+		parts := []interface{}{"{"}
+		var strs []string
+		for i := 0; i < n; i++ {
+			if i > 0 {
+				parts = append(parts, ",")
+			}
+			ext := []string{"e1", "e2", "default", "if"}[r.Intn(4)]
+			if imp {
+				loc := g.fresh()
+				if r.Bool() && ext != "default" && ext != "if" {
+					loc = g.fresh()
+					parts = append(parts, loc)
+					strs = append(strs, loc)
+				} else {
+					parts = append(parts, ext, "as", loc)
+					strs = append(strs, ext+" as "+loc)
+				}
+			} else {
+				loc := []string{"a", "b", "c"}[r.Intn(3)]
+				if r.Bool() {
+					parts = append(parts, loc)
+					strs = append(strs, loc)
+				} else {
+					parts = append(parts, loc, "as", ext)
+					strs = append(strs, loc+" as "+ext)
+				}
+			}
+		}
+		tail := ""
+		if n > 0 && r.Chance(1, 5) {
+			// ImportStmt/ExportStmt.String() shows a trailing comma of the specifier list
+			parts = append(parts, ",")
+			tail = " ,"
+		}
+		parts = append(parts, "}")
+		if n == 0 {
+			return c03B(parts...), ""
+		}
+		return c03B(parts...), " { " + strings.Join(strs, " , ") + tail + " }"
+	}
+	switch r.Intn(10) {
+	case 0:
+		return c03Stmt{c03S("Stmt(import "+mod+")", "import", mod), true, false}
+	case 1:
+		nm := g.fresh()
+		return c03Stmt{c03S("Stmt(import "+nm+" from "+mod+")", "import", nm, "from", mod), true, false}
+	case 2:
+		nm := g.fresh()
+		return c03Stmt{c03S("Stmt(import * as "+nm+" from "+mod+")", "import * as", nm, "from", mod), true, false}
+	case 3:
+		sp, ss := specs(true)
+		if ss == "" {
+			ss = " { }"
+		}
+		return c03Stmt{c03S("Stmt(import"+ss+" from "+mod+")", "import", sp, "from", mod), true, false}
+	case 4:
+		nm := g.fresh()
+		sp, ss := specs(true)
+		if ss == "" {
+			ss = " { }"
+		}
+		return c03Stmt{c03S("Stmt(import "+nm+" ,"+ss+" from "+mod+")", "import", nm, ",", sp, "from", mod), true, false}
+	case 5:
+		sp, ss := specs(false)
+		if r.Bool() {
+			return c03Stmt{c03S("Stmt(export"+ss+" from "+mod+")", "export", sp, "from", mod), true, false}
+		}
+		return c03Stmt{c03S("Stmt(export"+ss+")", "export", sp), true, false}
+	case 6:
+		if r.Bool() {
+			return c03Stmt{c03S("Stmt(export * from "+mod+")", "export * from", mod), true, false}
+		}
+		return c03Stmt{c03S("Stmt(export * as ns from "+mod+")", "export * as ns from", mod), true, false}
+	case 7:
+		d := g.varDecl(depth, true)
+		return c03Stmt{c03S("Stmt(export "+d.p.str+")", "export", d.p), true, false}
+	case 8:
+		if r.Bool() {
+			f := g.function(depth-1, r.Chance(1, 4), r.Chance(1, 4), true, true)
+			return c03Stmt{c03S("Stmt(export "+f.str+")", "export", f), false, false}
+		}
+		c := g.class(depth-1, true, true)
+		return c03Stmt{c03S("Stmt(export "+c.str+")", "export", c), false, false}
+	default:
+		for {
+			e := g.expr(c03NtAssignment, depth, true)
+			switch e.first() {
+			case js.FunctionToken, js.ClassToken, js.AsyncToken:
+				continue
+			}
+			return c03Stmt{c03S("Stmt(export default "+e.str+")", "export default", e), true, false}
+		}
+	}
+}
+
 // program: module items
 func (g *c03ProgGen) program(n, depth int) c03Piece {
-	return g.stmtList(depth, n, false)
+	if g.opts&2 == 0 && g.r.Chance(1, 3) {
+		// a module: import / export declarations between the statements
+		g.modItems = true
+	}
+	p := g.stmtList(depth, n, true)
+	g.modItems = false
+	return p
 }
 
 // c03WholeLanguage: programs over the whole statement / declaration / function / class grammar.
